@@ -246,7 +246,7 @@ Cleanup(p) ==
   /\ pc[p] = "cleanup"
   /\ LET t == T(p)  s == slot[p] IN
      IF Mutant = "nocleanup"
-     THEN /\ GiveUp(p) /\ UNCHANGED <<info, nfaults>> /\ strayleft' = TRUE
+     THEN /\ GiveUp(p) /\ UNCHANGED <<info, nfaults, strayleft>>      \* the mutant simply forgets the info
      ELSE \/ /\ ~StickyFails(p, "unlink")
              /\ info' = [info EXCEPT ![t][s] = IF IsOwned(@) /\ @.owner = p THEN NoneV ELSE @]
              /\ GiveUp(p) /\ UNCHANGED <<nfaults, strayleft>>
